@@ -193,6 +193,8 @@ def same_py(model, impl):
   """pytype result vs bind_py model result.  duplicate-keyword: the code raises for one element of a set."""
   if model.startswith("E:dup:") and impl.startswith("E:dup:"):
     return impl[6:] in model[6:].split(".")
+  if impl == "O:!self-rebound":
+    return model.startswith("O:") and not model.startswith("O:P0")
   return canon(model) == canon(impl)
 
 
@@ -415,6 +417,11 @@ def pytype_results(group):
     if errs[line]:
       if len(errs[line]) > 1:
         r = "E:multiple:" + ";".join(n for n, _ in errs[line])
+      elif (variant == "init" and errs[line][0][0] == "attribute-error"
+            and re.match(r"No attribute 'r' on C\d+", errs[line][0][1])):
+        # __init__ ran with `self` bound to something other than the new instance, so `self.r = ...` landed
+        # elsewhere: the call was accepted and the first parameter is not the instance
+        r = "O:!self-rebound"
       else:
         r = _decode_error(*errs[line][0])
     elif line not in reveals:
